@@ -31,7 +31,7 @@ LEVEL_TEXT = (
     "lookup spellings; plus bounded-exhaustive enumeration of all histories of length "
     "<=3 (quick) / <=4 (thorough) over a 6-key prefix-closed universe x 3 actions x prune."
 )
-LEVEL_NOTE = "Trusted: CPython dict, Hypothesis. Aborted batches are C05's business and not generated here; nested batches are out of scope."
+LEVEL_NOTE = "Trusted: CPython dict, Hypothesis. Aborted batches are generated too (the map must then be what it was before the block); the atomicity claim itself, with commit faults, is C05's. Nested batches are out of scope."
 TECHNIQUE = "model-based property testing (Hypothesis histories vs dict model) + bounded-exhaustive enumeration"
 
 UNIVERSE = [b"", b"\x00", b"\x00\x00", b"\x00\x10", b"\x01", b"\x10"]
@@ -40,7 +40,7 @@ UNIVERSE = [b"", b"\x00", b"\x00\x00", b"\x00\x10", b"\x01", b"\x10"]
 def strategy(tier):
     return st.fixed_dictionaries(
         {"prune": st.booleans(), "sparse": st.booleans(),
-         "ops": histories(tier, batches=True, aborts=False, looks=2, reroot=True)}
+         "ops": histories(tier, batches=True, aborts=True, looks=2, reroot=True)}
     )
 
 
